@@ -1769,6 +1769,12 @@ def check(pid, tier, seed):
             source_tie["transfer_audit"] = rec
         if bad_ax or trc != 0 or not tthms:
             log("  transfer theorems: audit problem %s" % (bad_ax or trc))
+        if tier == "thorough":
+            # the independent re-check of the compiled module, as for the property theorems
+            rlc = R.sh(["lake", "env", "leanchecker", "UnicLocale.SrcTie." + TRANSFER_OF[pid]], cwd=R.LEAN)
+            rec["leanchecker_rc"] = rlc.returncode
+            if rlc.returncode != 0:
+                log("  leanchecker rejects UnicLocale.SrcTie.%s: %s" % (TRANSFER_OF[pid], rlc.stdout[-300:]))
 
     # ---- correspondence + oracle
     known = [k for k in R.load_known() if k.get("property") == pid and k.get("status") == "known"]
